@@ -34,4 +34,22 @@ GathersC(c, r, masks, k) ==
   ELSE (IF ParticipatesC(c, r, masks[k])
         THEN << [grp |-> MembersC(c, GroupOfC(c, r)), inb |-> c.seg, outb |-> c.seg * c.GS] >>
         ELSE <<>>) \o GathersC(c, r, masks, k + 1)
+
+\* ---- several parameter groups: cs = Seq of configurations (same W, GS; own owner / seg), masks[k][g] -------------
+\* every distributor creates its subgroups again; DeviceMeshes are cached per process, so a mesh is created once
+SetOfSeq(s) == {s[i] : i \in 1..Len(s)}
+RECURSIVE CreationsMultiC(_, _, _, _)
+CreationsMultiC(cs, r, g, seen) ==
+  IF g > Len(cs) THEN <<>>
+  ELSE LET mesh == SelectSeq(MeshCreationsC(cs[g], r), LAMBDA m : m \notin seen)
+       IN SubgroupCreationsC(cs[g]) \o mesh \o CreationsMultiC(cs, r, g + 1, seen \cup SetOfSeq(mesh))
+RECURSIVE GathersOfStepC(_, _, _, _)
+GathersOfStepC(cs, r, stepmasks, g) ==
+  IF g > Len(cs) THEN <<>>
+  ELSE (IF ParticipatesC(cs[g], r, stepmasks[g])
+        THEN << [grp |-> MembersC(cs[g], GroupOfC(cs[g], r)), inb |-> cs[g].seg, outb |-> cs[g].seg * cs[g].GS] >>
+        ELSE <<>>) \o GathersOfStepC(cs, r, stepmasks, g + 1)
+RECURSIVE GathersMultiC(_, _, _, _)
+GathersMultiC(cs, r, masks, k) ==
+  IF k > Len(masks) THEN <<>> ELSE GathersOfStepC(cs, r, masks[k], 1) \o GathersMultiC(cs, r, masks, k + 1)
 =============================================================================
